@@ -170,6 +170,55 @@ func (h *H) checkViews(m *Mon, after string) {
 		}
 		h.R.Count("views.addr_txns", 1)
 	}
+	// --- transaction history per address including the pool: the pending part of the answer
+	// must come from the pool (every pooled transaction paying the address, nothing that is not
+	// pooled), the confirmed part is the history checked above
+	for _, a := range univ {
+		paying := map[cipher.SHA256]bool{}
+		for hh, e := range M.Pool {
+			for _, o := range e.Txn.Out {
+				if o.Address == a {
+					paying[hh] = true
+				}
+			}
+		}
+		for _, mode := range []string{"unconfirmed", "all"} {
+			flts := []visor.TxFilter{visor.NewAddrsFilter([]cipher.Address{a})}
+			if mode == "unconfirmed" {
+				flts = append(flts, visor.NewConfirmedTxFilter(false))
+			}
+			txns, _, err := v.GetTransactions(flts, visor.AscOrder, nil)
+			if err != nil {
+				fail("get-transactions-error", "addr", a.String(), "mode", mode, "err", err.Error())
+				continue
+			}
+			seen := map[cipher.SHA256]bool{}
+			nConfirmed := 0
+			for _, t := range txns {
+				hh := ledger.TxnHash(&t.Transaction)
+				if t.Status.Confirmed {
+					nConfirmed++
+					if mode == "unconfirmed" || M.Txns[hh] == nil {
+						fail("addr-pending-txns", "addr", a.String(), "mode", mode, "txn", hh.Hex(), "why", "confirmed status")
+					}
+					continue
+				}
+				seen[hh] = true
+				if _, pooled := M.Pool[hh]; !pooled {
+					fail("addr-pending-txns", "addr", a.String(), "mode", mode, "txn", hh.Hex(), "why", "not in the pool")
+				}
+			}
+			for hh := range paying {
+				if !seen[hh] {
+					fail("addr-pending-txns", "addr", a.String(), "mode", mode, "txn", hh.Hex(), "why", "pooled payment missing")
+				}
+			}
+			if mode == "all" && nConfirmed != len(M.AddrTxns(a)) {
+				fail("addr-txns", "addr", a.String(), "mode", mode, "node_n", fmt.Sprint(nConfirmed), "model_n", fmt.Sprint(len(M.AddrTxns(a))))
+			}
+			h.R.Count("views.addr_pending_txns", 1)
+		}
+	}
 	{
 		set := []cipher.Address{univ[1], univ[2], univ[3]}
 		wantSet := map[cipher.SHA256]bool{}
